@@ -152,6 +152,20 @@ theorem ir_ErrorSnapPack1 : Gen.C08.rtok_ErrorSnapPack1.head? = some (.call "Abs
 theorem gen_roundtrip_ErrorSnapPack1 : Denotes (Gen.C08.wtok_ErrorSnapPack1.drop 1) (Gen.C08.rtok_ErrorSnapPack1.drop 1) errorSnapPack1Body :=
   interp_roundtrip valueRT _ _ errorSnapPack1Body (by decide) iw_ErrorSnapPack1.2 ir_ErrorSnapPack1.2
 
+/-! ### what an object could carry from one Write to the next
+
+  The model's writers are functions of the current public fields.  For the Go objects to behave like that a
+  record or pack must not keep encoded state between Writes.  Regenerated from the source: the unexported
+  fields of every covered struct (incl. AbstractStep / AbstractService / AbstractPack), the receiver fields
+  assigned inside `Write` (embedded writers and own helpers inlined), and the package-level variables of
+  lang/step and lang/service.  A cache field, an assignment inside Write or a package-level scratch buffer
+  changes one of these lists. -/
+
+theorem no_unexported_state : ∀ e ∈ Gen.C08.unexportedFields, e.2 = [] := by decide
+theorem write_assigns_no_field : ∀ e ∈ Gen.C08.assignedInWrite, e.2 = [] := by decide
+/-- the only package-level variables are the two WebMethod name tables of lang/service (no writer mentions them) -/
+theorem package_level_state : Gen.C08.packageVars = ["service.WebMethodName", "service.WebMethodValue"] := by decide
+
 /-! ### builders called more than once: replace or accumulate, read off the source -/
 
 /-- every builder of the covered containers denotes the semantics the model gives it: the three
